@@ -202,6 +202,16 @@ def _work(item):
                                   alpn_s,
                                   cst_v.record_size_limit is not None,
                                   pair.s.session.clientCertChain is not None)
+            if version >= (3, 4) and fl["flavour"] == "psk" and \
+                    pair.c.session.serverCertChain is None:
+                # a PSK was used: with or without a (EC)DHE share?
+                mode = "psk_ke" if pair.c.ecdhCurve is None and \
+                    pair.s.ecdhCurve is None else "psk_dhe_ke"
+                for who, st in (("client", cst_v), ("server", sst_v)):
+                    if mode not in st.psk_modes:
+                        fails.append("%s: PSK key exchange mode %s outside "
+                                     "its psk_modes %r" % (who, mode,
+                                                           st.psk_modes))
             if pair.c.next_proto != pair.s.next_proto:
                 fails.append("NPN differs: %r %r" % (pair.c.next_proto,
                                                      pair.s.next_proto))
@@ -263,7 +273,8 @@ def run(res, tier, seed):
         "per side from the in-domain menus of C19 (34 values), crossed with "
         "15 handshake flavours (credential types, SRP, anon, PSK, client "
         "auth, ALPN, SNI, NPN): full cross on rsa-mutual, one-sided changes "
-        "on the other flavours (quick); full cross everywhere (thorough); "
+        "and both-sided changes of one dimension on the other flavours "
+        "(quick); full cross everywhere (thorough); "
         "distinct by (flavour, client change, server change); non-trivial = "
         "at least one side changed")
     M = c19.conn_menus()
@@ -273,8 +284,8 @@ def run(res, tier, seed):
         full = (tier == "thorough") or fname == "rsa-mutual"
         for a in singles:
             for b in singles:
-                if not full and a and b:
-                    continue
+                if not full and a and b and a[0][0] != b[0][0]:
+                    continue        # both changed: same dimension only
                 items.append((fname, a, b, seed))
     n = 0
     done = 0
